@@ -1,6 +1,7 @@
 import JellyModel.Parse
 import JellyModel.SerRdflib
 import JellyProofs.Lemmas.SerRows
+import JellyProofs.Lemmas.RowBracket
 /-!
 # Helper lemmas for C15 / C14 / C02
 
@@ -326,18 +327,18 @@ theorem encSlot_notNs (enc : TermEnc → Term → Res TermEnc (List Row × WTerm
       obtain ⟨_, _, rfl, _⟩ := h
       exact henc _ _ _ _ _ hi
 
-theorem encodeTriple_notNs (exc : PyErr) (st st' : EncState) (terms : List Term) (rows : List Row)
-    (h : encodeTriple exc st terms = (st', .ok rows)) : ∀ r ∈ rows, r.NotNs := by
+theorem encodeTripleBody_notNs (exc : PyErr) (st st' : EncState) (terms : List Term) (rows : List Row)
+    (h : encodeTripleBody exc st terms = (st', .ok rows)) : ∀ r ∈ rows, r.NotNs := by
   have hs := encSlot_notNs TermEnc.spo spo_notNs
   rcases terms with _ | ⟨a, _ | ⟨b, _ | ⟨c, rest⟩⟩⟩
-  · simp [encodeTriple] at h
-  · simp only [encodeTriple] at h
+  · simp [encodeTripleBody] at h
+  · simp only [encodeTripleBody] at h
     split at h <;> simp at h
-  · simp only [encodeTriple] at h
+  · simp only [encodeTripleBody] at h
     split at h
     · simp at h
     · split at h <;> simp at h
-  · simp only [encodeTriple] at h
+  · simp only [encodeTripleBody] at h
     split at h
     · simp at h
     · rename_i h1
@@ -357,25 +358,30 @@ theorem encodeTriple_notNs (exc : PyErr) (st st' : EncState) (terms : List Term)
           · exact hs _ _ _ _ _ _ _ h3 r hr
           · trivial
 
-theorem encodeQuad_notNs (exc : PyErr) (st st' : EncState) (terms : List Term) (rows : List Row)
-    (h : encodeQuad exc st terms = (st', .ok rows)) : ∀ r ∈ rows, r.NotNs := by
+theorem encodeTriple_notNs (exc : PyErr) (st st' : EncState) (terms : List Term) (rows : List Row)
+    (h : encodeTriple exc st terms = (st', .ok rows)) : ∀ r ∈ rows, r.NotNs := by
+  obtain ⟨_, st1, hb, _⟩ := encodeTriple_ok_inv h
+  exact encodeTripleBody_notNs exc _ st1 terms rows hb
+
+theorem encodeQuadBody_notNs (exc : PyErr) (st st' : EncState) (terms : List Term) (rows : List Row)
+    (h : encodeQuadBody exc st terms = (st', .ok rows)) : ∀ r ∈ rows, r.NotNs := by
   have hs := encSlot_notNs TermEnc.spo spo_notNs
   have hg := encSlot_notNs TermEnc.graph graph_notNs
   rcases terms with _ | ⟨a, _ | ⟨b, _ | ⟨c, _ | ⟨g, rest⟩⟩⟩⟩
-  · simp [encodeQuad] at h
-  · simp only [encodeQuad] at h
+  · simp [encodeQuadBody] at h
+  · simp only [encodeQuadBody] at h
     split at h <;> simp at h
-  · simp only [encodeQuad] at h
+  · simp only [encodeQuadBody] at h
     split at h
     · simp at h
     · split at h <;> simp at h
-  · simp only [encodeQuad] at h
+  · simp only [encodeQuadBody] at h
     split at h
     · simp at h
     · split at h
       · simp at h
       · split at h <;> simp at h
-  · simp only [encodeQuad] at h
+  · simp only [encodeQuadBody] at h
     split at h
     · simp at h
     · rename_i h1
@@ -398,6 +404,11 @@ theorem encodeQuad_notNs (exc : PyErr) (st st' : EncState) (terms : List Term) (
             · exact hs _ _ _ _ _ _ _ h3 r hr
             · exact hg _ _ _ _ _ _ _ h4 r hr
             · trivial
+
+theorem encodeQuad_notNs (exc : PyErr) (st st' : EncState) (terms : List Term) (rows : List Row)
+    (h : encodeQuad exc st terms = (st', .ok rows)) : ∀ r ∈ rows, r.NotNs := by
+  obtain ⟨_, st1, hb, _⟩ := encodeQuad_ok_inv h
+  exact encodeQuadBody_notNs exc _ st1 terms rows hb
 
 
 /-! ### Streams and runs -/
@@ -486,10 +497,13 @@ theorem Stream.graph_clean (exc : PyErr) (s : Stream) (g : Term) (ts : List (Lis
     (hs : ∀ x ∈ s.flow.rows, x.NotNs) :
     CleanRows (s.graph exc g ts).2.1 (s.graph exc g ts).1.flow := by
   rw [Stream.graph_eq]
-  rcases hg : s.enc.te.startRow.graph g with ⟨te', e | ⟨rows, w⟩⟩
+  rcases s.enc.te.beginRow with e0 | te0
+  · simpa [CleanRows] using hs
+  dsimp only
+  rcases hg : te0.graph g with ⟨te', e | ⟨rows, w⟩⟩
   · simpa [CleanRows] using hs
   · dsimp only
-    have h0 : CleanRows [] (({ s with enc := { s.enc with te := te' } } : Stream).pushRows
+    have h0 : CleanRows [] (({ s with enc := { s.enc with te := te'.endRow } } : Stream).pushRows
         (rows ++ [Row.graphStart (some w)])).flow := by
       intro x hx
       simp only [List.flatMap_nil, List.nil_append, Stream.pushRows, List.mem_append,
